@@ -26,9 +26,13 @@ def run_one(mut, tier='quick', extra_env=None):
                         ignore=shutil.ignore_patterns('__pycache__'))
         path = os.path.join(scratch, 'pyins', fname)
         src = open(path).read()
-        if src.count(old) != 1:
-            return mid, prop, 'PATCH-FAILED', f'{src.count(old)} matches', 0.0
-        open(path, 'w').write(src.replace(old, new))
+        olds = old if isinstance(old, (list, tuple)) else [old]
+        news = new if isinstance(new, (list, tuple)) else [new]
+        for o, nw in zip(olds, news):
+            if src.count(o) != 1:
+                return mid, prop, 'PATCH-FAILED', f'{src.count(o)} matches', 0.0
+            src = src.replace(o, nw)
+        open(path, 'w').write(src)
         env = dict(os.environ, VERIF_REPO=scratch)
         env.update(extra_env or {})
         t0 = time.time()
